@@ -1,0 +1,7 @@
+//go:build verif
+
+package kit
+
+import "github.com/jsightapi/jsight-api-core/verifhook"
+
+func verifFileAccess(op, path string) { verifhook.FileAccess(op, path) }
